@@ -87,7 +87,7 @@ def boolToInt (b : Bool) : Int := if b then 1 else 0
 
 def integerConvert (length : Option Nat) (required : Bool) : Val → PyM Val
   | .none => enforceRequired required .none
-  | .bool b => do intEnforceLength length (boolToInt b); pure (.bool b)   -- `bool <: int`, the bool is kept
+  | .bool _ => .error .type                              -- `bool <: int` reaches `_convert_int`, which refuses it
   | .int i => do intEnforceLength length i; pure (.int i)
   | .str s =>
     if s.length = 0 then enforceRequired required .none
@@ -102,33 +102,33 @@ def integerConvert (length : Option Nat) (required : Bool) : Val → PyM Val
 
 def integerUnconvert (length : Option Nat) (required : Bool) : Val → PyM Val
   | .none => enforceRequired required .none
-  | .bool b => do                                       -- `bool <: int`: `str(True) == "True"`
-    intEnforceLength length (boolToInt b)
-    pure (.str (if b then "True".toList else "False".toList))
+  | .bool _ => .error .type                              -- `_unconvert_int` refuses bools
   | .int i => do intEnforceLength length i; pure (.str (pyStrInt i))
   | _ => .error .type
 
 /-! ### Decimal -/
 
-/-- exponent of the quantum `Decimal.__init__` stores for `scale = n`:
-    `decimal.Decimal(f"0.{'0' * (n - 1)}1")` — for `n = 0` the text is `0.1` -/
-def quantumText (n : Nat) : Str := '0' :: '.' :: (List.replicate (n - 1) '0' ++ ['1'])
-
-def quantumOfScale (n : Nat) : Option Dec := decParse (quantumText n)
+/-- the quantum `Decimal.__init__` stores for `scale = n`: `decimal.Decimal(1).scaleb(-n)` -/
+def quantumOfScale (n : Nat) : Dec := .fin false 1 (-(n : Int))
 
 def applyScale (q : Option Int) (d : Dec) : PyM Dec :=
   match q with
   | some qe => quantize d qe
   | none => .ok d
 
-/-- `Decimal(value)` with the comma fallback of `_convert_str` -/
-def decOfText (s : Str) : PyM Dec :=
+/-- `Decimal(value)` with the comma fallback of `_convert_str` (InvalidOperation when both fail) -/
+def decOfTextRaw (s : Str) : PyM Dec :=
   match decParse s with
   | some d => .ok d
   | none =>
     match decParse (replace [','] ['.'] s) with
     | some d => .ok d
     | none => .error .decimal
+
+/-- … followed by the refusal of non-finite literals (OFXSpecError) -/
+def decOfText (s : Str) : PyM Dec := do
+  let d ← decOfTextRaw s
+  if d.isFinite then pure d else .error .spec
 
 def decimalConvert (q : Option Int) (required : Bool) : Val → PyM Val
   | .none => enforceRequired required .none
@@ -144,9 +144,9 @@ def decimalConvert (q : Option Int) (required : Bool) : Val → PyM Val
 def decimalUnconvert (q : Option Int) (required : Bool) : Val → PyM Val
   | .none => enforceRequired required .none
   | .dec d =>
-    match q with
-    | some qe => if sameQuantum d qe then .ok (.str (decToStr d)) else .error .value
-    | none => .ok (.str (decToStr d))
+    if (match q with | some qe => !sameQuantum d qe | none => false) then .error .value   -- wrong quantum
+    else if !d.isFinite then .error .value                                                 -- NaN / Infinity
+    else .ok (.str (decFormatF d))                                                         -- `format(value, "f")`
   | _ => .error .type
 
 /-! ### dispatch on the kind -/
